@@ -32,6 +32,17 @@ TraceSwap ==
                               <<"C10.swap_state", e.exc # "" \/ ObjOfRec(e.post) = o>>,
                               <<"C10.object_not_mutated", e.exc # "" \/ ObjOfRec(e.src_post) = st[e.h]>>}))
 
+(* attribute assignment on a live object: System's SetEasy; what was remembered about *)
+(* earlier answers of that object no longer applies                                    *)
+TraceSetEasy ==
+  /\ IsEvent("SetEasy")
+  /\ LET e == Log[l]
+         o == [st[e.h] EXCEPT !.ep = e.ep, !.en = e.en]
+     IN /\ st' = [st EXCEPT ![e.h] = o]
+        /\ memo' = SelectSeq(memo, LAMBDA m : m[1][1] # e.h)
+        /\ Report(e, Failing({<<"C10.raised", e.exc = "">>,
+                              <<"C10.state_after_assignment", e.exc # "" \/ ObjOfRec(e.post) = o>>}))
+
 TraceQuery ==
   /\ IsEvent("Query") /\ UNCHANGED st
   /\ LET e == Log[l]
@@ -54,7 +65,7 @@ TraceQuery ==
              <<"C10.repeatable", ~ok \/ ~seen \/ e.out = prev>>,
              <<"C10.independent_of_call_history", ~ok \/ (e.fresh_out = e.out /\ e.fresh_exact)>>}))
 
-Next == TraceNew \/ TraceSwap \/ TraceQuery
+Next == TraceNew \/ TraceSwap \/ TraceQuery \/ TraceSetEasy
 Spec == Init /\ [][Next]_vars
 AllConsumed == TLCGet("stats").diameter - 1 = Len(Log)
 =============================================================================
